@@ -320,6 +320,35 @@ func c14Main(r *engine.Run) {
 			add(geom.NewGeometryCollection(rot).AsGeometry(), "mixed collection (rotated members)")
 		}
 	}
+	// member product: every ordered collection of 1..3 members drawn from a pool that has, in every
+	// dimension, a plain member, an empty one, a Multi* with an EMPTY member at the front / in the
+	// middle / at the back, and nested collections (weights per member, not per leaf type)
+	{
+		e := geom.NewEmptyPoint(geom.DimXY)
+		mpt := func(ps ...geom.Point) geom.Geometry { return geom.NewMultiPoint(ps).AsGeometry() }
+		l2 := id.Line([]universe.LPt{{5, 5}, {5, 8}})
+		sq2 := id.Polygon([]universe.LPt{{4, 0}, {8, 0}, {8, 4}, {4, 4}, {4, 0}})
+		pool := []geom.Geometry{
+			pt, e.AsGeometry(), mpt(geom.NewPointXY(1, 1), geom.NewPointXY(4, 1)), mpt(e, geom.NewPointXY(1, 1), geom.NewPointXY(4, 2)),
+			mpt(geom.NewPointXY(2, 5), e), mpt(geom.NewPointXY(2, 5), e, e, geom.NewPointXY(0, 3)), mpt(),
+			ln, geom.LineString{}.AsGeometry(), geom.NewMultiLineString([]geom.LineString{{}, id.Line([]universe.LPt{{0, 0}, {1, 0}}), l2}).AsGeometry(),
+			geom.NewMultiLineString([]geom.LineString{l2, {}}).AsGeometry(),
+			sqp, geom.Polygon{}.AsGeometry(), geom.NewMultiPolygon([]geom.Polygon{{}, sq2}).AsGeometry(), donutAt(10, false).AsGeometry(),
+			geom.NewGeometryCollection([]geom.Geometry{id.Point(universe.LPt{X: 3, Y: 3}).AsGeometry(), mpt(e, geom.NewPointXY(9, 9))}).AsGeometry(),
+			geom.NewGeometryCollection([]geom.Geometry{l2.AsGeometry(), geom.Polygon{}.AsGeometry()}).AsGeometry(),
+			geom.NewGeometryCollection([]geom.Geometry{sq2.AsGeometry(), l2.AsGeometry(), geom.NewGeometryCollection([]geom.Geometry{pt}).AsGeometry()}).AsGeometry(),
+			geom.GeometryCollection{}.AsGeometry(),
+		}
+		for _, a := range pool {
+			add(geom.NewGeometryCollection([]geom.Geometry{a}).AsGeometry(), "member product 1")
+			for _, b := range pool {
+				add(geom.NewGeometryCollection([]geom.Geometry{a, b}).AsGeometry(), "member product 2")
+				for _, c := range pool {
+					add(geom.NewGeometryCollection([]geom.Geometry{a, b, c}).AsGeometry(), "member product 3")
+				}
+			}
+		}
+	}
 	r.States.Add(int64(len(geoms)))
 	if r.Parallel(len(geoms), func(i int) {
 		g := geoms[i]
@@ -354,21 +383,24 @@ func c14Main(r *engine.Run) {
 	if r.Thorough() {
 		// 4×4 lattice: every simple polygon of ≤7 vertices, alone and (≤5 vertices) as the hole of a
 		// frame, under a ring start/direction that depends on the index
-		p4 := universe.SimplePolygons(4, 7)
-		frame := []universe.LPt{{-1, -1}, {4, -1}, {4, 4}, {-1, 4}, {-1, -1}}
+		p4 := universe.SimplePolygons(4, 8)
+		n4 := len(p4)
+		// 5×5 lattice (slopes k/4, larger areas and moments): every simple polygon of ≤5 vertices
+		p4 = append(p4, universe.SimplePolygons(5, 5)...)
+		frame := []universe.LPt{{-1, -1}, {5, -1}, {5, 5}, {-1, 5}, {-1, -1}}
 		r.States.Add(int64(len(p4)))
 		if r.Parallel(len(p4), func(i int) {
 			ring := rotateRing(p4[i], i%(len(p4[i])-1), i%2 == 1)
-			c14Check(r, id.Polygon(ring).AsGeometry(), "4×4 simple polygon")
+			c14Check(r, id.Polygon(ring).AsGeometry(), "4×4/5×5 simple polygon")
 			if len(p4[i])-1 <= 5 {
 				g := id.Polygon(rotateRing(frame, i%4, i%3 == 0), ring).AsGeometry()
-				c14Check(r, g, "frame with a 4×4 simple polygon as hole")
+				c14Check(r, g, "frame with a 4×4/5×5 simple polygon as hole")
 				if i%7 == 0 {
-					c14Relations(r, g, "frame with a 4×4 simple polygon as hole")
+					c14Relations(r, g, "frame with a 4×4/5×5 simple polygon as hole")
 				}
 			}
 		}) {
-			r.Bound(fmt.Sprintf("4×4 lattice: all %d simple polygons of ≤7 vertices, and every one of ≤5 vertices as the hole of a frame", len(p4)))
+			r.Bound(fmt.Sprintf("4×4 lattice: all %d simple polygons of ≤8 vertices; 5×5 lattice: all %d of ≤5 vertices; every one of ≤5 vertices also as the hole of a frame", n4, len(p4)-n4))
 		}
 	}
 	// affine images of the alphabet (exact and general-position float)
